@@ -67,7 +67,7 @@ func writeManifest() {
 	}
 	man := map[string]interface{}{
 		"version":   1,
-		"setup_cmd": "cd /verif/checker && GOFLAGS=-mod=mod GOPROXY=off GOSUMDB=off GOTOOLCHAIN=local go build -o /verif/bin/decverif ./cmd/decverif && cd /repo && GOFLAGS=-mod=mod GOPROXY=off GOSUMDB=off go build ./... ",
+		"setup_cmd": "cd /verif/checker && export GOFLAGS=-mod=mod GOPROXY=off GOSUMDB=off GOTOOLCHAIN=local && GO126=$(command -v go1.26.8 || echo /opt/veriftools/go1.26.8/bin/go) && $GO126 build -o /verif/bin/decverif ./cmd/decverif && cd /repo && go build ./... ",
 		"hooks": map[string]interface{}{
 			"guard":            "verif",
 			"enable":           "none needed: static analysis reads the source; no instrumentation of /repo exists",
@@ -77,7 +77,7 @@ func writeManifest() {
 		},
 		"engines": []map[string]interface{}{{
 			"name": "decverif", "path": "/verif/checker", "serves_properties": ids,
-			"kind_free_text": "custom static analyser over go/types + go/ssa (x/tools v0.29.0), constants, assembly text and build constraints of /repo; see DESIGN.md §3",
+			"kind_free_text": "custom static analyser over go/types + go/ssa (x/tools v0.50.0, built with go1.26.8), constants, assembly text and build constraints of /repo; see DESIGN.md §3",
 		}},
 		"checks":         checks,
 		"not_applicable": nas,
